@@ -667,6 +667,10 @@ def _cell_emitters(prog, T, _memo={}):
         o = mir.strip_all(seq[0].payload[0])
         if o[0] == "agg" and o[3]:
             o = mir.strip_all(o[3][0])
+        elif o[0] == "call" and o[2]:
+            # the path is built by a private helper that is handed the name
+            ps = [mir.strip_all(a) for a in o[2] if mir.strip_all(a)[0] == "param"]
+            o = ps[0] if len(ps) == 1 else o
         if o[0] != "param":
             continue
         if ins == ["VarPathName", "CopyAToVarPath"]:
@@ -928,6 +932,57 @@ def r11_tested_value_is_not_a_bitwise_complement(ctx, rule="C02.R11"):
     ctx.require(rule, 1)
 
 
+def r13_conversions_only_in_front_of_typed_places(ctx, rule="C02.R13"):
+    """`SELECT CASE as the equivalent IF chain`, `FOR as the equivalent WHILE`: a value is converted to another
+    type exactly where BASIC prescribes it - when it is stored into a variable, handed to a typed parameter, or
+    used as a subscript.  A comparison converts nothing (`CASE IS < 2.4` on an INTEGER compares 2 with 2.4, as
+    `IF i% < 2.4` does).  Every call of the converting expression emitter is therefore directly followed by an
+    emission that consumes A into a typed place: a store (an emitter that ends in CopyAToVarPath), PushNamed or
+    VarPathIndex - never by a comparison, a register copy or a jump."""
+    prog = ctx.prog
+    from .c03 import _emitted_instructions
+    casting = [f for f in emit.generator_fns(prog) if f.name == "generate_expression_instructions_casting"]
+    if len(casting) != 1:
+        raise CheckError("%s: anchor generate_expression_instructions_casting" % rule)
+    cid = casting[0].id
+    wrappers = {cid}
+    for f in emit.generator_fns(prog):
+        evs = [e for e in emit.events(prog, f).values() if e.kind != "mark"]
+        if len(evs) == 1 and evs[0].callee is not None and evs[0].callee.id == cid:
+            wrappers.add(f.id)
+    n = 0
+    for f in sorted(emit.generator_fns(prog), key=lambda x: x.id):
+        if f.id in wrappers:
+            continue
+        evs = emit.events(prog, f)
+        bad = {}
+        sites = set()
+        for seq in emit.linear_paths(f.body, evs):
+            for i, e in enumerate(seq):
+                if e.callee is None or e.callee.id not in wrappers:
+                    continue
+                sites.add(e.line)
+                nxt = next((x for x in seq[i + 1:] if x.kind != "mark"), None)
+                ok = False
+                if nxt is not None:
+                    if nxt.kind == "push" and nxt.instr in ("PushNamed", "VarPathIndex", "CopyAToVarPath"):
+                        ok = True
+                    elif nxt.callee is not None and nxt.kind == "gen" and "CopyAToVarPath" in _emitted_instructions(prog, nxt.callee):
+                        ok = True
+                if not ok:
+                    bad[e.line] = nxt.show() if nxt is not None else "nothing"
+        for line in sorted(sites):
+            n += 1
+            k = sum(1 for x in ctx.obs if x.key.startswith("%s:%s" % (rule, f.name)))
+            ctx.decide(line not in bad, rule, "%s:%s%s" % (rule, f.name, "#%d" % k if k else ""), "%s:%s" % (f.file, line),
+                       "the converted value goes straight into a typed place",
+                       "%s converts a value to a target type and then emits %s: the converted value is not stored or passed "
+                       "but compared / used - a CASE value is rounded to the type of the selected value before the comparison, "
+                       "which the equivalent IF chain does not do" % (f.name, bad.get(line)))
+    ctx.analysed_units(rule, conversions=n)
+    ctx.require(rule, 4)
+
+
 def run(ctx):
     common.install(ctx)
     T = templates.Templates(ctx.prog)
@@ -943,3 +998,4 @@ def run(ctx):
     r9_statement_lists_are_repetitions(ctx)
     r10_for_step_as_evaluated(ctx, T)
     r11_tested_value_is_not_a_bitwise_complement(ctx)
+    r13_conversions_only_in_front_of_typed_places(ctx)
